@@ -310,6 +310,8 @@ pub fn run(ctx: &mut Ctx) -> Result<(), Violation> {
                 Random: lists of <= 6 operands of <= 3 variables over ids 0..4 with repeated operands. Oracle: per assignment, the number of true operands (i128) compared with the bound / the other count. \
                 Non-trivial = a list of >= 2 operands with a repeated or compound (>= 2 variable) operand, or a bound outside 0..len; distinct by serialized case. Operand provenance: created in the environment through mk_choice (default), or - in a share of the random cases and in dedicated stages - plain values that belong to no environment / nodes of another environment (what BDD::<usize>::from(named) and the repository's own parser tests produce)."
         .to_string();
+    ctx.rule.push_str(" Wide texts: ");
+    ctx.rule.push_str(crate::widetext::RULE);
     ctx.rule.push_str(" Wide stage: ");
     ctx.rule.push_str(crate::wide::RULE);
     ctx.rule.push_str(" Long lists: up to 13 (thorough 16) operands - literals, short cubes / clauses, small functions, repeated entries - with bounds at -1, 0, 1, len-1, len, len+1, i64::MIN, i64::MAX; list-vs-list forms when both lists together have <= 14 operands.");
@@ -443,10 +445,15 @@ pub fn run(ctx: &mut Ctx) -> Result<(), Violation> {
     ctx.stage("random-lists", false, r)?;
     let wc = ctx.tier.cases(3_000, 60_000);
     crate::wide::stage_count(ctx, "wide-long-lists", wc)?;
+    let wc = ctx.tier.cases(100, 2000);
+    crate::widetext::stage_long_lists(ctx, "text-lists-of-14-to-21-literals", wc)?;
     Ok(())
 }
 
 pub fn replay(case: &Value) -> Check {
+    if let Some(r) = crate::widetext::replay(case) {
+        return r;
+    }
     if let Some(r) = crate::wide::replay(case) {
         return r;
     }
